@@ -1363,6 +1363,61 @@ func (e *env) reads(tier string) []string {
 		}
 		restore()
 	}
+	// a pessimistic lock resolved by a WRITER while the primary does not exist yet (status check answers
+	// "lock not exist, nothing done": not a final status, must not be remembered), the transaction then
+	// prewrites, commits its primary and leaves the secondary locked; a reader after the commit must read
+	// the new value (the resolver's status cache must not say "rolled back")
+	{
+		dbg := e.mvcc.(mocktikv.MVCCDebugger)
+		var free [][]byte
+		for _, k := range h.keys {
+			if dbg.MvccGetByKey(e.phys(k)).Lock == nil {
+				free = append(free, k)
+			}
+		}
+		if len(free) >= 2 && r.Intn(2) == 0 {
+			pk, sk := free[r.Intn(len(free))], free[r.Intn(len(free))]
+			if !bytes.Equal(pk, sk) {
+				n := len(h.txns) + 12
+				tT, tC, tR := tsAt(n, 1), tsAt(n, 6), tsAt(n+1, 0)
+				resp := e.mvcc.PessimisticLock(&kvrpcpb.PessimisticLockRequest{Context: &kvrpcpb.Context{},
+					Mutations:   []*kvrpcpb.Mutation{{Op: kvrpcpb.Op_PessimisticLock, Key: e.phys(sk)}},
+					PrimaryLock: e.phys(pk), StartVersion: tT, ForUpdateTs: tT, LockTtl: 1, WaitTimeout: -1})
+				if len(resp.Errors) == 0 {
+					lr := e.store.GetLockResolver()
+					_ = guard(func() string {
+						bo := retry.NewBackofferWithVars(context.Background(), 2000, nil)
+						_, err := lr.ResolveLocksWithOpts(bo, txnlock.ResolveLocksOptions{CallerStartTS: tR, Locks: []*txnlock.Lock{{
+							Key: sk, Primary: pk, TxnID: tT, TTL: 1, TxnSize: 2, LockType: kvrpcpb.Op_PessimisticLock, LockForUpdateTS: tT}}})
+						if err != nil {
+							return "err:" + errKind(err)
+						}
+						return "ok"
+					})
+					vals := [][]byte{[]byte("pl.p"), []byte("pl.s")}
+					errs := e.mvcc.Prewrite(&kvrpcpb.PrewriteRequest{Context: &kvrpcpb.Context{}, Mutations: []*kvrpcpb.Mutation{
+						{Op: kvrpcpb.Op_Put, Key: e.phys(pk), Value: vals[0]}, {Op: kvrpcpb.Op_Put, Key: e.phys(sk), Value: vals[1]}},
+						PrimaryLock: e.phys(pk), StartVersion: tT, LockTtl: 1, TxnSize: 2})
+					okp := true
+					for _, er := range errs {
+						if er != nil {
+							okp = false
+						}
+					}
+					if okp && e.mvcc.Commit([][]byte{e.phys(pk)}, tT, tC) == nil {
+						e.h.txns = append(e.h.txns, txnSpec{kind: kCommitPrim, start: tT, commit: tC, keys: [][]byte{pk, sk},
+							del: []bool{false, false}, vals: vals, ttl: 1})
+						sn := e.snap(tR)
+						getL("pess-late", sn, tR, sk)
+						getL("pess-late", sn, tR, pk)
+						bgetL("pess-late", e.snap(tR), tR, allKeys)
+					} else if okp {
+						_ = e.mvcc.Rollback([][]byte{e.phys(pk), e.phys(sk)}, tT)
+					}
+				}
+			}
+		}
+	}
 	// a cache program: gets / batch gets / SetSnapshotTS / failing calls interleaved on one snapshot
 	{
 		sc := e.snap(h.ts1)
@@ -1587,6 +1642,33 @@ func runHistory(seed int64, hid int, tier string) {
 		fmt.Fprintf(out, "LATER\t%d\t%s\t=>\tcommitted-lock-not-committed-at-request-ts\n", hid, l)
 	}
 	fmt.Fprintf(out, "LATER\t%d\tnone\tnone\t=>\tchecked\n", hid)
+	// atomicity of what the readers resolved: a key of a transaction whose primary is committed must carry
+	// that commit (or still the lock) — never a rollback, never nothing
+	{
+		dbg := e.mvcc.(mocktikv.MVCCDebugger)
+		for _, t := range h.txns {
+			if t.kind == kPessimistic || len(t.keys) < 2 {
+				continue
+			}
+			c := e.commitOfTxn(t.start)
+			if c == 0 {
+				continue
+			}
+			for _, k := range t.keys[1:] {
+				info := dbg.MvccGetByKey(e.phys(k))
+				ok := info.Lock != nil && info.Lock.StartTs == t.start
+				for _, w := range info.Writes {
+					if w.StartTs == t.start && w.Type != kvrpcpb.Op_Rollback && w.CommitTs == c {
+						ok = true
+					}
+				}
+				if !ok {
+					fmt.Fprintf(out, "ATOMIC\t%d\t%s\t%s\t=>\tsecondary-lost-under-committed-primary\n", hid, u64s(t.start), hx(k))
+				}
+			}
+		}
+		fmt.Fprintf(out, "ATOMIC\t%d\tnone\tnone\t=>\tchecked\n", hid)
+	}
 	for _, a := range aliasLog {
 		fmt.Fprintf(out, "ALIAS\t%d\t%s\t=>\tmodified\n", hid, a)
 	}
